@@ -696,8 +696,10 @@ def expect_state(cfg, e, scv, const=0.0):
 def uniform_for(dec, prop, salt):
     """the scripted uniform of one Decide: just below / above the threshold exp(r) the SPEC computes"""
     cls = dec["cls"]
+    if dec.get("u") == "zero":
+        return 0.0                                    # MHOutside: the draw is exactly 0 (log u = -inf)
     if cls == "Any":
-        return (1e-12, 0.5, 1 - 1e-9)[salt % 3]
+        return (1e-12, 0.5, 1 - 1e-9, 0.0)[salt % 4]  # incl. the boundary draw 0: -inf <= -inf must not accept
     r = frac(prop["r"])
     tau = math.exp(float(r)) if r < 0 else 1.0
     return below(tau) if cls == "Below" else above(tau)
